@@ -99,12 +99,12 @@ def nstep_clause(t, x, n, r, sgn, ncast='(s64)(s8)'):
 NT = 'int8_t'
 
 
-def loop_inv(t, sgn):
+def loop_inv(t, sgn, x='x'):
     """loop contract of `for (i = 0; i < n; ++i) temp = next_or_prev(temp)` as clang leaves it (rotated: entered only if n > 0, one phi for i, one for temp)"""
     w = '32' if t == 'f32' else '64'
-    lim = ('SPEC_MIN64(SPEC_ORD%s_LV(x) + (s64)PHI_I(0), %s)' if sgn == '+' else 'SPEC_MAX64(SPEC_ORD%s_LV(x) - (s64)PHI_I(0), -%s)') % (w, 'SPEC_ORD%s_INF_LV' % w)
-    return ('__CPROVER_loop_invariant(PHI_I(0) < n && (SPEC_ISNAN%s_LV(x) || SPEC_ORD%s_LV(PHI_F(0)) == %s)) '
-            '__CPROVER_decreases(n - PHI_I(0))' % (w, w, lim))
+    lim = ('SPEC_MIN64(SPEC_ORD%s_LV(%s) + (s64)PHI_I(0), %s)' if sgn == '+' else 'SPEC_MAX64(SPEC_ORD%s_LV(%s) - (s64)PHI_I(0), -%s)') % (w, x, 'SPEC_ORD%s_INF_LV' % w)
+    return ('__CPROVER_loop_invariant(PHI_I(0) < n && (SPEC_ISNAN%s_LV(%s) || SPEC_ORD%s_LV(PHI_F(0)) == %s)) '
+            '__CPROVER_decreases(n - PHI_I(0))' % (w, x, w, lim))
 
 
 def n_req(ns, nmax):
@@ -154,6 +154,15 @@ for alias, (fnext, fprev, fdist, F1, FV) in (
                        '%s r = glm::%s(%s, n); %s' % (V, fname, vec_make(L, t, 'x'), vec_store(L, 'r')), outs=[(cpp, 'out', L)])
                 C(vn, 'glm::%s(vec<%d,%s>, int)  %s' % (fname, L, cpp, FV), tier_of(t, L, 'loop', alias), uses=[sn], unwind=UNW_NV, bounded=BND_V, requires=n_req(['n'], NMAX_V),
                   ensures=[('comp%d_same_as_scalar' % i, same_bits(t, 'out[%d]' % i, '%s(%s, n)' % (sn, xs[i]), T['nan'] % xs[i])) for i in range(L)])
+                # every n >= 0 for the vector overload too: one inductive loop contract per component loop (the flat extraction keeps the
+                # per-component loops in component order), each component stated directly against the order map
+                vN = 'glm_%s_N_%s_v%d' % (fname, t, L)
+                if L < 4:   # vec4: four consecutive loop contracts in one SAT instance did not finish in 900 s (its n-bounded twin stays)
+                  d.shim(vN, 'void', vec_ins(L, t, 'x') + [('int32_t', 'n')],
+                         '%s r = glm::%s(%s, n); %s' % (V, fname, vec_make(L, t, 'x'), vec_store(L, 'r')), outs=[(cpp, 'out', L)], tmask={'n': 0x3f})
+                  C(vN, 'glm::%s(vec<%d,%s>, int)  %s' % (fname, L, cpp, FV), 'quick' if (t == 'f32' and not alias and L == 2) else 'thorough', requires=[('steps_nonnegative', '(s32)n >= 0')],
+                    loops=[loop_inv(t, sgn, xs[i]) for i in range(L)], timeout=600,
+                    ensures=[('comp%d_equals_n_single_steps_for_every_n' % i, nstep_clause(t, xs[i], 'n', 'out[%d]' % i, sgn, '(s64)(s32)')) for i in range(L)])
                 vv = 'glm_%s_vn_%s_v%d' % (fname, t, L)
                 d.shim(vv, 'void', vec_ins(L, t, 'x') + n_ins(L),
                        '%s r = glm::%s(%s, %s); %s' % (V, fname, vec_make(L, t, 'x'), vec_make(L, 'i32', 'n'), vec_store(L, 'r')), outs=[(cpp, 'out', L)])
@@ -341,7 +350,8 @@ P.level_text = ('every scalar overload is proved against an integer specificatio
                 'overload on all inputs; the scalar n-step overloads (and floatDistance(x, nextFloat(x, n)) == n) are proved for EVERY step '
                 'count n >= 0 by an inductive loop contract on the extracted loop (goto-instrument --apply-loop-contracts: invariant '
                 'ord(t_i) = ord(x) +- i saturating at the infinities, variant n - i); their n-bounded twins (unwinding, n <= 16/64) are kept '
-                'for replayable counterexamples and are reported as bounded, as are the vector n-step overloads (n <= 8)')
+                'for replayable counterexamples and are reported as bounded; the vector n-step overloads of length 1-3 are proved the same way (one loop '
+                'contract per component; vec2/float per change, the others in the thorough tier), length 4 stays bounded (n <= 8)')
 P.level_note = ('libm nextafter/nextafterf (what std::nextafter resolves to) is NOT the code under proof: it is replaced by the '
                 'bit-level model in rt/ll2c_fpmodels.h written from C11 7.12.11.3; so what is proved about GLM in nextFloat/prevFloat '
                 'is the direction argument passed to nextafter and the composition (loops, per-component application, '
